@@ -23,6 +23,7 @@ import (
 )
 
 type harnessSpec struct {
+	Setups   []string
 	Property string
 	Pkg      string // lib/query
 	File     string // absolute path of the harness source
@@ -36,14 +37,19 @@ type harnessSpec struct {
 
 var directive = regexp.MustCompile(`^//verif:(\w+)\s+(.*)$`)
 
-func parseHarnessFile(path string) ([]harnessSpec, error) {
+func parseHarnessFile(path string) (specs []harnessSpec, err error) {
 	f, err := os.Open(path)
 	if err != nil {
 		return nil, err
 	}
 	defer f.Close()
-	var specs []harnessSpec
 	var prop, pkg string
+	var setups []string
+	defer func() {
+		for i := range specs {
+			specs[i].Setups = setups
+		}
+	}()
 	sc := bufio.NewScanner(f)
 	sc.Buffer(make([]byte, 1<<20), 1<<20)
 	for sc.Scan() {
@@ -56,6 +62,8 @@ func parseHarnessFile(path string) ([]harnessSpec, error) {
 			prop = strings.TrimSpace(m[2])
 		case "pkg":
 			pkg = strings.TrimSpace(m[2])
+		case "setup":
+			setups = append(setups, strings.TrimSpace(m[2]))
 		case "harness":
 			fs := strings.Fields(m[2])
 			h := harnessSpec{Property: prop, Pkg: pkg, File: path, Fn: fs[0], Mode: "bv", Tier: "quick", Extra: map[string]string{}}
@@ -188,6 +196,21 @@ func checkMain(args []string) int {
 			pkgFiles[s.Pkg] = append(pkgFiles[s.Pkg], s.File)
 		}
 	}
+	// shared helper files (harness/common/*.go) join every overlay of their package
+	commons, _ := filepath.Glob(filepath.Join(*verif, "harness", "common", "*.go"))
+	for _, cf := range commons {
+		cs, _ := parseCommon(cf)
+		if _, ok := pkgFiles[cs.pkg]; ok {
+			pkgFiles[cs.pkg] = append(pkgFiles[cs.pkg], cf)
+		}
+	}
+	pkgSetups := map[string][]string{}
+	for pkg, fl := range pkgFiles {
+		for _, f := range fl {
+			cs, _ := parseCommon(f)
+			pkgSetups[pkg] = append(pkgSetups[pkg], cs.setups...)
+		}
+	}
 	pkgName := func(pkg string) string {
 		// package clause of the first harness file
 		b, _ := os.ReadFile(pkgFiles[pkg][0])
@@ -207,58 +230,102 @@ func checkMain(args []string) int {
 	}
 
 	self, _ := os.Executable()
-	results := make([]runOut, len(sel))
+	var results []runOut
+	var resMu sync.Mutex
 	sem := make(chan struct{}, *jobs)
 	var wg sync.WaitGroup
-	for i, s := range sel {
-		wg.Add(1)
-		go func(i int, s harnessSpec) {
-			defer wg.Done()
-			sem <- struct{}{}
-			defer func() { <-sem }()
-			ts := time.Now()
-			outFile := filepath.Join(scratch, fmt.Sprintf("res_%d.json", i))
-			dl := s.Deadline
-			if dl == 0 {
-				dl = 8 * time.Minute
-				if *tier == "thorough" {
-					dl = 40 * time.Minute
-				}
-			}
-			qto := 20000
+	runWorker := func(s harnessSpec, tag string, extra ...string) runOut {
+		sem <- struct{}{}
+		defer func() { <-sem }()
+		ts := time.Now()
+		outFile := filepath.Join(scratch, fmt.Sprintf("res_%s_%s.json", s.Fn, tag))
+		dl := s.Deadline
+		if dl == 0 {
+			dl = 8 * time.Minute
 			if *tier == "thorough" {
-				qto = 120000
+				dl = 40 * time.Minute
 			}
-			wargs := []string{"worker", "-repo", *repo, "-pkg", s.Pkg, "-fn", s.Fn, "-mode", s.Mode, "-out", outFile,
-				"-deadline", dl.String(), "-query-timeout-ms", strconv.Itoa(qto),
-				"-known", filepath.Join(*verif, "known_findings.txt"),
-				"-tier", *tier, "-seed", strconv.Itoa(seed),
-				"-overlay", intrFile[s.Pkg] + "=zz_verif_intrinsics.go"}
-			if s.MaxSteps > 0 {
-				wargs = append(wargs, "-max-steps", strconv.FormatInt(s.MaxSteps, 10))
-			}
-			for k, f := range pkgFiles[s.Pkg] {
-				wargs = append(wargs, "-overlay", fmt.Sprintf("%s=zz_verif_h%d.go", f, k))
-			}
-			cmd := exec.Command(self, wargs...)
-			cmd.Stderr = os.Stderr
-			cmd.Env = append(os.Environ(), "GOFLAGS=-mod=mod", "GOPROXY=off", "GOSUMDB=off", "GOTOOLCHAIN=local")
-			runErr := cmd.Run()
-			ro := runOut{spec: s, wall: time.Since(ts).Seconds()}
-			b, err := os.ReadFile(outFile)
-			if err != nil {
-				ro.err = fmt.Sprintf("worker produced no result (%v)", runErr)
+		}
+		qto := 20000
+		if *tier == "thorough" {
+			qto = 120000
+		}
+		wargs := []string{"worker", "-repo", *repo, "-pkg", s.Pkg, "-fn", s.Fn, "-mode", s.Mode, "-out", outFile,
+			"-deadline", dl.String(), "-query-timeout-ms", strconv.Itoa(qto),
+			"-known", filepath.Join(*verif, "known_findings.txt"),
+			"-tier", *tier, "-seed", strconv.Itoa(seed),
+			"-overlay", intrFile[s.Pkg] + "=zz_verif_intrinsics.go"}
+		if s.MaxSteps > 0 {
+			wargs = append(wargs, "-max-steps", strconv.FormatInt(s.MaxSteps, 10))
+		}
+		for k, f := range pkgFiles[s.Pkg] {
+			wargs = append(wargs, "-overlay", fmt.Sprintf("%s=zz_verif_h%d.go", f, k))
+		}
+		for _, su := range pkgSetups[s.Pkg] {
+			wargs = append(wargs, "-setup", su)
+		}
+		wargs = append(wargs, extra...)
+		cmd := exec.Command(self, wargs...)
+		cmd.Stderr = os.Stderr
+		cmd.Env = append(os.Environ(), "GOFLAGS=-mod=mod", "GOPROXY=off", "GOSUMDB=off", "GOTOOLCHAIN=local")
+		runErr := cmd.Run()
+		ro := runOut{spec: s, wall: time.Since(ts).Seconds()}
+		b, err := os.ReadFile(outFile)
+		if err != nil {
+			ro.err = fmt.Sprintf("worker produced no result (%v)", runErr)
+		} else {
+			var wo WorkerOutput
+			if err := json.Unmarshal(b, &wo); err != nil {
+				ro.err = "bad worker output: " + err.Error()
 			} else {
-				var wo WorkerOutput
-				if err := json.Unmarshal(b, &wo); err != nil {
-					ro.err = "bad worker output: " + err.Error()
-				} else {
-					ro.out = &wo
-					ro.err = wo.Error
+				ro.out = &wo
+				ro.err = wo.Error
+			}
+		}
+		return ro
+	}
+	for _, s := range sel {
+		wg.Add(1)
+		go func(s harnessSpec) {
+			defer wg.Done()
+			split, _ := strconv.Atoi(s.Extra["split"])
+			if *tier == "thorough" {
+				if ts, err := strconv.Atoi(s.Extra["tsplit"]); err == nil {
+					split = ts
 				}
 			}
-			results[i] = ro
-		}(i, s)
+			if split <= 1 {
+				ro := runWorker(s, "all")
+				resMu.Lock()
+				results = append(results, ro)
+				resMu.Unlock()
+				return
+			}
+			ff := filepath.Join(scratch, "frontier_"+s.Fn+".json")
+			ro := runWorker(s, "p1", "-frontier", strconv.Itoa(4*split), "-frontier-file", ff)
+			resMu.Lock()
+			results = append(results, ro)
+			resMu.Unlock()
+			if ro.err != "" {
+				return
+			}
+			fb, err := os.ReadFile(ff)
+			if err != nil || strings.TrimSpace(string(fb)) == "null" || strings.TrimSpace(string(fb)) == "[]" {
+				return
+			}
+			var wg3 sync.WaitGroup
+			for i := 0; i < split; i++ {
+				wg3.Add(1)
+				go func(i int) {
+					defer wg3.Done()
+					r := runWorker(s, fmt.Sprintf("p2_%d", i), "-frontier-file", ff, "-share", fmt.Sprintf("%d/%d", i, split), "-traces", "0")
+					resMu.Lock()
+					results = append(results, r)
+					resMu.Unlock()
+				}(i)
+			}
+			wg3.Wait()
+		}(s)
 	}
 	wg.Wait()
 
@@ -298,8 +365,18 @@ func checkMain(args []string) int {
 		for _, ic := range res.Inconclusive {
 			inconclusive = append(inconclusive, fmt.Sprintf("harness=%s reason=%s (x%d)", r.spec.Fn, oneLine(ic.Reason), ic.Count))
 		}
-		if res.Vacuous {
-			inconclusive = append(inconclusive, fmt.Sprintf("harness=%s reason=vacuous: no path reached the end of the harness", r.spec.Fn))
+	}
+	completedBy := map[string]int{}
+	foundBy := map[string]int{}
+	for _, r := range results {
+		if r.out != nil && r.out.Result != nil {
+			completedBy[r.spec.Fn] += r.out.Result.PathsCompleted
+			foundBy[r.spec.Fn] += len(r.out.Result.Violations) + len(r.out.Result.Known)
+		}
+	}
+	for _, s := range sel {
+		if completedBy[s.Fn] == 0 && foundBy[s.Fn] == 0 {
+			inconclusive = append(inconclusive, fmt.Sprintf("harness=%s reason=vacuous: no path reached the end of the harness", s.Fn))
 		}
 	}
 
@@ -328,7 +405,7 @@ func checkMain(args []string) int {
 						fns = append(fns, s.Fn)
 					}
 				}
-				rr, err := nativeReplay(*repo, scratch, pkg, pkgName(pkg), intrFile[pkg], pkgFiles[pkg], fns, cases)
+				rr, err := nativeReplay(*repo, scratch, pkg, pkgName(pkg), intrFile[pkg], pkgFiles[pkg], fns, pkgSetups[pkg], cases)
 				mu.Lock()
 				defer mu.Unlock()
 				if err != nil {
@@ -352,7 +429,12 @@ func checkMain(args []string) int {
 	for _, k := range known {
 		knownWhat[k.ID] = k.What
 	}
+	reported := map[string]bool{}
 	for _, c := range cands {
+		key := c.v.Harness + "|" + c.v.Label + "|" + c.v.Known
+		if reported[key] {
+			continue
+		}
 		rr := replayed[c.id]
 		confirmed := false
 		detail := ""
@@ -391,6 +473,7 @@ func checkMain(args []string) int {
 			spurious = append(spurious, fmt.Sprintf("harness=%s label=%q model=%v (%s)", c.v.Harness, c.v.Label, c.v.Model, detail))
 			continue
 		}
+		reported[key] = true
 		if c.v.Known != "" {
 			knownLines = append(knownLines, fmt.Sprintf("KNOWN-FINDING: property=%s %s [%s, harness=%s label=%q model=%s]", prop, knownWhat[c.v.Known], c.v.Known, c.v.Harness, c.v.Label, modelString(c.v)))
 			continue
@@ -494,13 +577,43 @@ func oneLine(s string) string {
 
 // nativeReplay compiles the harnesses with the native intrinsics into the package's test binary
 // (build overlay; nothing is written into the repository) and runs the recorded models.
-func nativeReplay(repo, scratch, pkg, pkgName, intr string, harnessFiles, fns []string, cases []replayCase) (map[int]*replayResult, error) {
+type commonSpec struct {
+	pkg    string
+	setups []string
+}
+
+func parseCommon(path string) (commonSpec, error) {
+	var cs commonSpec
+	b, err := os.ReadFile(path)
+	if err != nil {
+		return cs, err
+	}
+	for _, line := range strings.Split(string(b), "\n") {
+		m := directive.FindStringSubmatch(strings.TrimSpace(line))
+		if m == nil {
+			continue
+		}
+		switch m[1] {
+		case "pkg":
+			cs.pkg = strings.TrimSpace(m[2])
+		case "setup":
+			cs.setups = append(cs.setups, strings.TrimSpace(m[2]))
+		}
+	}
+	return cs, nil
+}
+
+func nativeReplay(repo, scratch, pkg, pkgName, intr string, harnessFiles, fns, setups []string, cases []replayCase) (map[int]*replayResult, error) {
 	tag := strings.ReplaceAll(pkg, "/", "_")
 	var b strings.Builder
 	fmt.Fprintf(&b, "package %s\n\nimport (\n\t\"encoding/json\"\n\t\"fmt\"\n\t\"os\"\n\t\"strings\"\n\t\"testing\"\n)\n\n", pkgName)
 	b.WriteString("var verifHarnesses = map[string]func(){\n")
 	for _, f := range fns {
 		fmt.Fprintf(&b, "\t%q: %s,\n", f, f)
+	}
+	b.WriteString("}\n\nvar verifSetups = []func(){")
+	for _, su := range setups {
+		fmt.Fprintf(&b, "%s, ", su)
 	}
 	b.WriteString("}\n\n")
 	b.WriteString(`func TestVerifReplay(t *testing.T) {
@@ -517,6 +630,9 @@ func nativeReplay(repo, scratch, pkg, pkgName, intr string, harnessFiles, fns []
 		t.Fatal(err)
 	}
 	only := os.Getenv("VERIF_REPLAY_ONLY")
+	for _, su := range verifSetups {
+		su()
+	}
 	for _, c := range cases {
 		if only != "" && only != fmt.Sprint(c.ID) {
 			continue
